@@ -310,40 +310,40 @@ func preScaleC14(t *testing.T) {
 }
 
 func c14Probe(n int) C14Case {
-		c := C14Case{Rows: 63, Rel: "scale"}
-		b0 := Block{Add: n, Rem: []int{0, 5, n - 2}}
-		c.Steps = append(c.Steps, WStep{Op: "block", B: &b0})
-		var d []int
-		for s := 3; s < n/2; s += 7 {
-			d = append(d, s)
+	c := C14Case{Rows: 63, Rel: "scale"}
+	b0 := Block{Add: n, Rem: []int{0, 5, n - 2}}
+	c.Steps = append(c.Steps, WStep{Op: "block", B: &b0})
+	var d []int
+	for s := 3; s < n/2; s += 7 {
+		d = append(d, s)
+	}
+	b1 := Block{Del: d, Add: 0}
+	c.Steps = append(c.Steps, WStep{Op: "block", B: &b1})
+	dead := map[int]bool{}
+	for _, s := range d {
+		dead[s] = true
+	}
+	// A: a few old leaves plus the last-but-one leaf; B: many newer leaves plus the last leaf (the
+	// two proofs meet only in the smallest trees)
+	for s := 5; len(c.A) < 20 && s < n/2; s += 11 {
+		if !dead[s] && !dead[s^1] { // still on row 0: every held position lies before the wanted ones
+			c.A = append(c.A, s)
 		}
-		b1 := Block{Del: d, Add: 0}
-		c.Steps = append(c.Steps, WStep{Op: "block", B: &b1})
-		dead := map[int]bool{}
-		for _, s := range d {
-			dead[s] = true
-		}
-		// A: a few old leaves plus the last-but-one leaf; B: many newer leaves plus the last leaf (the
-		// two proofs meet only in the smallest trees)
-		for s := 5; len(c.A) < 20 && s < n/2; s += 11 {
-			if !dead[s] && !dead[s^1] { // still on row 0: every held position lies before the wanted ones
-				c.A = append(c.A, s)
-			}
-		}
-		if n == 1022 {
-			c.A = append(c.A, n-2)
-		}
-		step := 1
-		if n == 1022 {
-			step = 2
-		}
-		for s := n - 1; len(c.B) < 1300 && s > n/2; s -= step {
-			c.B = append(c.B, s)
-		}
-		// restriction: a proof of ~1500 leaves cut down to ~1100 of them in another order
-		c.Wants = append([]int(nil), c.A...)
-		c.Req = []int{1, n - 3}
-		return c
+	}
+	if n == 1022 {
+		c.A = append(c.A, n-2)
+	}
+	step := 1
+	if n == 1022 {
+		step = 2
+	}
+	for s := n - 1; len(c.B) < 1300 && s > n/2; s -= step {
+		c.B = append(c.B, s)
+	}
+	// restriction: a proof of ~1500 leaves cut down to ~1100 of them in another order
+	c.Wants = append([]int(nil), c.A...)
+	c.Req = []int{1, n - 3}
+	return c
 }
 
 // preScaleC11: UpdateData of the scale history, plain and embedded behind 2^45 opaque leaves.
